@@ -132,6 +132,19 @@ func enumerated() []arith.Case {
 			}
 		}
 	}
+	// rounding away exactly 100000 digits (the package's exponent limit, here as a digit
+	// count) and one fewer; exponents far from the limits so that nothing is
+	// "near the limit" about the operand itself
+	for _, p := range []uint32{1, 7} {
+		for _, extra := range []int{99999, 100000} { // one more is beyond what Round accepts (a documented package limit)
+			digits := "1" + strings.Repeat("0", int(p)+extra-2) + "1"
+			x := core.Dec{Coeff: digits, Exp: -50000}
+			for _, mode := range []string{"down", "half_even", "up"} {
+				ctx := core.Ctx{P: p, Emax: 100000, Emin: -100000, Rounding: mode}
+				out = append(out, arith.Case{Op: "round", Ctx: ctx, X: x, Y: zero}, arith.Case{Op: "mul", Ctx: ctx, X: x, Y: one})
+			}
+		}
+	}
 	return out
 }
 
